@@ -52,8 +52,10 @@ func RunSeq(sp SeqSpec, deadline time.Time, maxFail int) SeqResult {
 	}
 
 	init := sp.New()
-	seen := map[string]bool{sp.Canon(init): true}
+	initKey := sp.Canon(init)
+	seen := map[string]bool{initKey: true}
 	frontier := [][]int{{}}
+	canonOf := map[string]string{fmt.Sprint([]int{}): initKey} // history (as string) -> canonical model state, for the frontier only
 	res.States = 1
 
 	names := func(h []int) []string {
@@ -69,6 +71,8 @@ func RunSeq(sp SeqSpec, deadline time.Time, maxFail int) SeqResult {
 
 	for depth := 0; depth < sp.Depth && len(frontier) > 0; depth++ {
 		var next [][]int
+
+		nextCanon := map[string]string{}
 
 		for fi, hist := range frontier {
 			if fi%64 == 0 && time.Now().After(deadline) {
@@ -104,17 +108,29 @@ func RunSeq(sp SeqSpec, deadline time.Time, maxFail int) SeqResult {
 					res.Sample = names(h2)
 				}
 
+				// Dedup key: the canonical model state - plus, when the operation left the model state unchanged, the
+				// class of that operation. Equal model states are merged only on the argument that they have equal
+				// futures; an operation that is a no-op for the model may still have changed hidden implementation state
+				// (a lock left held, a private timestamp), so one representative per (state, last no-op class) is kept.
 				k := sp.Canon(s)
+				ck := k
+
+				if prev, ok := canonOf[fmt.Sprint(hist)]; ok && prev == k {
+					k += "|after " + opClass(sp.Ops[op])
+				}
+
 				if !seen[k] {
 					seen[k] = true
 					res.States++
 
 					next = append(next, h2)
+					nextCanon[fmt.Sprint(h2)] = ck
 				}
 			}
 		}
 
 		frontier = next
+		canonOf = nextCanon
 	}
 
 	if res.Sample == nil && len(frontier) > 0 {
